@@ -34,6 +34,7 @@ func settleWriter(w *bluge.Writer) {
 	last, same := iw.Stats(), 0
 	for i := 0; i < 4000 && same < 4; i++ {
 		wait()
+		heartbeat.Add(1)
 		st := iw.Stats()
 		// in the bubble "every goroutine blocked and no counter moved while
 		// the clock advanced" is idle; in real time also ask for a persisted
